@@ -101,6 +101,8 @@ structure Box (c : Cfg) : Prop where
   hi : InBox B6 6 c
   lo : LowBox A6 6 c
 
+variable {c : Cfg}
+
 theorem Box.month (h : Box c) : 1 ≤ c 4 ∧ c 4 ≤ 12 := ⟨h.lo 4 (by omega), h.hi 4 (by omega)⟩
 theorem Box.day (h : Box c) : 1 ≤ c 3 ∧ c 3 ≤ 31 := ⟨h.lo 3 (by omega), h.hi 3 (by omega)⟩
 
